@@ -402,6 +402,7 @@ def run(ctx, rep):
                                   "for a shared (DAG-shaped) incomplete type takes time and space exponential in its depth", cs.where())
                 else:
                     rep.ok("C04.occurs", "from_bound_ref: shared traversal", ga[-60:])
+    _undo(F, rep)
     f = F.fn("simplicity::types::Type::<'brand>::finalize")
     if f is not None:
         f = F.inlined(f, OCC_VOCAB)
@@ -435,12 +436,19 @@ def run(ctx, rep):
                 lim = a[0] == "adt" and a[2] == "Some" and a[4][0][0] == "int"
                 # the loop has a length cut-off
                 cut = False
+                nexts = {c.bb for c in g.calls() if c.name == "next" and g.in_loop(c.bb)}
                 for b in g.rpo():
                     t = g.blocks[b]["t"]
                     if t["k"] == "switch":
                         dt = T.operand(t["discr"])
-                        if dt[0] == "bin" and dt[1] in ("Gt", "Ge") and "index" in repr(dt[2]) and dt[3][0] == "int":
-                            cut = True
+                        # `if data.index > LIMIT { ..; return }`: the counter of yielded items (not the depth, which the
+                        # iterator already bounds) against a real limit, and the true branch leaves the loop
+                        if dt[0] == "bin" and dt[1] in ("Gt", "Ge") and "index" in repr(dt[2]) and dt[3][0] == "int" and dt[3][1] >= 64:
+                            true_t = [x for v_, x in t["targets"] if v_ != "0"]
+                            true_t = true_t[0] if true_t else t["otherwise"]
+                            reach = g.reachable(true_t, avoid=nexts)
+                            if any(g.blocks[x]["t"]["k"] == "return" for x in reach) and not (reach & nexts):
+                                cut = True
                 if lim and cut:
                     rep.ok("C04.occurs", key, "depth limit %s, length cut-off present" % a[4][0][1])
                 else:
@@ -681,6 +689,59 @@ def run(ctx, rep):
     return FINISH
 
 
+
+
+def _undo(F, rep):
+    """UbElement::unify replaces the data of the class representative that is dropped (mem::replace(&mut y.data, EqualTo(x)))
+    and, when binding fails, puts the saved data back: into the very cell it was taken from.  Restoring into another element
+    leaves the failed union in place (the classes stay merged with an incompatible bound) and corrupts that element."""
+    fs = [g for g in F.fns.values() if g.name == "unify" and g.path.startswith("simplicity::types::union_bound::")]
+    if len(fs) != 1:
+        rep.anchor("C04.bind", "union_bound::UbElement::unify")
+        return
+    f = F.inlined(fs[0], ("replace", "borrow_mut", "borrow", "root_element"))
+    T = Terms(f)
+    import expr as _e
+    reps = [cs for cs in f.calls() if cs.name == "replace" and cs.callee.endswith("mem::replace") and len(cs.args) == 2]
+    if len(reps) != 1:
+        rep.anchor("C04.bind", "UbElement::unify: one mem::replace of the dropped representative's data")
+        return
+    cell = _e.canon(T.operand(reps[0].args[0]))
+    saved = reps[0].dest[0]
+    restores = []
+    for b in f.rpo():
+        for st in f.blocks[b]["s"]:
+            if st[0] == "=" and st[1][1] and st[1][1][-1] == ".data" and b in f.reachable(reps[0].bb):
+                rv = st[2]
+                src = rv.get("a", {}).get("p", [None])[0] if rv.get("k") == "use" else None
+                if src is not None and saved in _copies_of(f, src, saved):
+                    restores.append((b, st))
+    if not restores:
+        rep.violation("C04.bind", "unify:undo:missing", "UbElement::unify never puts the replaced data back when binding fails: a rejected unification "
+                      "leaves the two classes merged", f.where())
+        return
+    for b, st in restores:
+        bt = T.place([st[1][0], st[1][1][:-1]] + list(st[1][2:]))
+        while isinstance(bt, tuple) and bt and bt[0] == "with":      # Terms' record of the field write itself
+            bt = bt[1]
+        base = _e.canon(bt) + ".data"
+        if base.replace("*", "") == cell.replace("*", ""):
+            rep.ok("C04.bind", "unify: failed binding restores the data of the cell it replaced", cell[:80])
+        else:
+            rep.violation("C04.bind", "unify:undo:cell", "UbElement::unify saves the data of `%s` but, when binding fails, writes it back into `%s`: the failed "
+                          "union stays in place and another element's data is overwritten" % (cell[:80], base[:80]),
+                          "%s:%s" % (f.file, st[3] if len(st) > 3 else f.line))
+
+
+def _copies_of(f, local, target, depth=0):
+    """locals `local` is a (transitive) move/copy of"""
+    out = {local}
+    if depth > 6:
+        return out
+    for (b, i, kind, pl) in f.defs().get(local, []):
+        if kind == "assign" and pl[2].get("k") == "use" and pl[2]["a"].get("k") in ("move", "copy") and not pl[2]["a"]["p"][1]:
+            out |= _copies_of(f, pl[2]["a"]["p"][0], target, depth + 1)
+    return out
 
 def _writeback(F, rep, f):
     """Type::finalize: on every iteration whose bound is not yet Complete (Free, Sum, Product) the finalised type is written
